@@ -8,6 +8,13 @@ State space (product bound, exhaustive): deterministic model specs
 Oracle: solve; read x.get(); re-evaluate EVERY user constraint (box, linear, atom) and the objective with
 independent closed-form NumPy atoms at the returned point.
 
+Overlapping Bounds (sub 'bnd'): the same entries of a variable receive two or three Bounds of the same side
+(lower, and mirrored upper) - tighter-then-looser / looser-then-tighter, whole-array / whole-scalar / slice / entry /
+index-list overlaps, declared in one st([...]) list, in separate st() calls, or the later ones after a first solve
+(re-solve) - x objective (linear towards the bounds, linear away, sumsqr) x vtype C/I x front end x interface.
+Oracle: every Bounds object handed to st() holds at x.get() at every solve, model.get() is the objective there and
+equals the closed-form optimum over the INTERSECTION of all bounds (outer box given by rows, not Bounds).
+
 Re-solve histories (cases with a 'hist' field): atom x multiplier +-{1, 0.5, 2.5} x scalar / element-wise array /
 vector / summed form x constant (number, 0-d, n-d array) or affine right-hand side x constraint / objective position
 x front end x history in {solve,st,solve; do_math,st,solve; solve,st,solve,st,solve} where st adds a constraint
@@ -71,6 +78,9 @@ def gen_cases(tier, seed):
         for tag, ktag, spec in S.c06_specs(tier, seed):
             for solver in S.solvers_for(spec, thorough):
                 yield {'tag': tag, 'k': ktag, 'solver': solver, 'spec': spec}
+    if only in (None, '', 'bnd'):
+        for c in gen_bounds(tier, seed):
+            yield c
     if only in (None, '', 'hist'):
         # re-solve histories: the same user objects are compiled again after the model was extended
         for tag, ktag, spec in S.c06_hist_specs(tier, seed):
@@ -80,6 +90,57 @@ def gen_cases(tier, seed):
                     continue
                 for hist in S.HISTORIES:
                     yield {'tag': tag, 'k': ktag, 'solver': solver, 'spec': spec, 'hist': hist}
+
+
+# ---- several Bounds objects on overlapping entries -----------------------------------------------------
+BND_LOW = [1.0, 2.0, 3.0, 1.5]
+
+
+def _bnd_patterns(n):
+    """(name, tight bound (idx, values), loose bound (idx, values)) for LOWER bounds; upper bounds are the mirror
+    image.  idx: ['all'] | ['slice', a, b] | ['int', i] | ['list', [..]]."""
+    low = BND_LOW[:n]
+    return [
+        ('whole-array/whole-scalar', (['all'], low), (['all'], 0.0)),
+        ('slice/whole', (['slice', 1, n], 1.0), (['all'], -2.0)),
+        ('whole-array/slice', (['all'], low), (['slice', 0, 2], -1.0)),
+        ('entry/whole', (['int', 1], 2.5), (['all'], 0.5)),
+        ('whole-scalar/entry', (['all'], 1.25), (['int', n - 1], -3.0)),
+        ('list/slice-partial-overlap', (['list', [0, n - 1]], [1.5, 2.5]), (['slice', 0, 2], 0.25)),
+        ('slice/slice-same', (['slice', 0, 2], [2.0, 1.0]), (['slice', 0, 2], [0.5, 0.75])),
+    ]
+
+
+def gen_bounds(tier, seed):
+    """The same entries receive two (three) Bounds of the same side: tighter-then-looser and looser-then-tighter,
+    whole / slice / entry / list overlaps, declared in one st([...]) list, in separate st() calls, or the second one
+    after a first solve (re-solve).  Outer box by ROWS (|x| <= 5) so that boundedness never depends on Bounds."""
+    th = tier == 'thorough'
+    n = 3
+    for side in ('L', 'U'):
+        for name, tight, loose in _bnd_patterns(n):
+            seqs = [('tight,loose', [tight, loose]), ('loose,tight', [loose, tight])]
+            if name == 'whole-array/whole-scalar':
+                mid = (['slice', 0, 2], 0.5)
+                seqs += [('tight,mid,loose', [tight, mid, loose]), ('loose,tight,mid', [loose, tight, mid]),
+                         ('mid,loose,tight', [mid, loose, tight])]
+            for order, seq in seqs:
+                for decl in ('list', 'sep', 'after'):
+                    for obj in ('lin-to', 'lin-away', 'sumsqr'):
+                        for vt in (('C', 'I') if obj != 'sumsqr' else ('C',)):
+                            for fe in ('ro', 'dro'):
+                                if obj == 'sumsqr':
+                                    solvers = ['eco', 'grb']
+                                elif vt == 'I':
+                                    solvers = ['def', 'grb'] + (['ort'] if th else [])
+                                else:
+                                    solvers = ['def', 'eco', 'grb'] + (['ort'] if th else [])
+                                for solver in solvers:
+                                    if not th and fe == 'dro' and solver == 'grb':
+                                        continue
+                                    yield {'sub': 'bnd', 'fe': fe, 'solver': solver, 'side': side, 'pat': name,
+                                           'order': order, 'decl': decl, 'obj': obj, 'vt': vt, 'n': n,
+                                           'bounds': [[list(i), v] for i, v in seq]}
 
 
 def exhaustive(tier):
@@ -92,6 +153,10 @@ def bounds(tier):
             'directions': '4 fixed + 1 adversarial (along the affine right-hand side)', 'vec_len': [2, 3], 'front_ends': ['ro', 'dro'],
             'interfaces': ['eco', 'grb(LP/SOC)', 'def(LP)'] + (['ort(LP)'] if th else []),
             'vtypes': ['C', 'I', 'BC'],
+            'overlapping_bounds': {'patterns': [p_[0] for p_ in _bnd_patterns(3)], 'sides': ['L', 'U'],
+                                   'orders': ['tight,loose', 'loose,tight', '3 triple orders'],
+                                   'declaration': ['list', 'sep', 'after'], 'objectives': ['lin-to', 'lin-away', 'sumsqr'],
+                                   'vtypes': ['C', 'I'], 'n': 3},
             'histories': {'sequences': S.HISTORIES, 'multipliers': [1, 0.5, 2.5, -1, -0.5, -2.5],
                           'rhs': ['constant (number / 0-d / n-d array)', 'affine'], 'positions': ['constraint', 'objective'],
                           'palettes': 4 if th else 1, 'interfaces': 'first applicable (ECOS); all applicable on palette 0' if th else 'first applicable (ECOS)'}}
@@ -142,7 +207,141 @@ def _epigraph_solves(spec, solver):
         return None
 
 
+def _bnd_index(x, idx):
+    if idx[0] == 'all':
+        return x, slice(None)
+    if idx[0] == 'slice':
+        return x[idx[1]:idx[2]], slice(idx[1], idx[2])
+    if idx[0] == 'int':
+        return x[idx[1]], idx[1]
+    return x[list(idx[1])], list(idx[1])
+
+
+def run_bounds(case, optimum_only=False):
+    """optimum_only (used by C07): skip the per-constraint checks, compare the reported optimum with the closed form."""
+    fe, solver, side, n, vt = case['fe'], case['solver'], case['side'], case['n'], case['vt']
+    sgn = 1.0 if side == 'L' else -1.0          # upper-bound family = mirror image (values negated)
+    sig = 'bnd|%s|%s|%s|%s|%s|%s|vt=%s' % (fe, side, case['pat'], case['order'], case['decl'], case['obj'], vt)
+    cvec = np.array([1.0, 0.5, 2.0, 0.75][:n])
+    bounds = [(idx, sgn * np.asarray(v, dtype=float)) for idx, v in case['bounds']]
+    nops = 0
+    try:
+        m = _R['ro'].Model() if fe == 'ro' else _R['dro'].Model()
+        x = m.dvar(n, vtype=vt)
+        eye = np.eye(n)
+        m.st(eye @ x <= 5.0)                    # outer box as rows
+        m.st(-eye @ x <= 5.0)
+        # one bound of the opposite side (both loops of the compiler see entries)
+        m.st(x <= 4.5) if side == 'L' else m.st(x >= -4.5)
+        if case['obj'] == 'lin-to':             # pushes against the bounds under test
+            e = cvec @ x
+            (m.min if side == 'L' else m.max)(e)
+        elif case['obj'] == 'lin-away':
+            e = cvec @ x
+            (m.max if side == 'L' else m.min)(e)
+        else:
+            m.min(_R['rso'].sumsqr(x))
+        nops = 6
+
+        def make(b):
+            sub, _ = _bnd_index(x, b[0])
+            val = b[1] if b[1].ndim else float(b[1])
+            return (sub >= val) if side == 'L' else (sub <= val)
+
+        first = bounds if case['decl'] != 'after' else bounds[:1]
+        later = [] if case['decl'] != 'after' else bounds[1:]
+        if case['decl'] == 'list':
+            m.st([make(b) for b in first])
+        else:
+            for b in first:
+                m.st(make(b))
+        nops += len(first)
+    except Exception as ex:  # noqa
+        return {'status': 'unsupported', 'outcome': 'bnd:raise@build:%s' % type(ex).__name__, 'ops': max(nops, 1),
+                'detail': '%s %s' % (sig, str(ex)[:160])}
+
+    def reference(active):
+        lo, hi = -5.0 * np.ones(n), 5.0 * np.ones(n)
+        if side == 'L':
+            hi = np.minimum(hi, 4.5)
+        else:
+            lo = np.maximum(lo, -4.5)
+        for idx, val in active:
+            _, sl = _bnd_index(np.arange(n), idx)
+            if side == 'L':
+                lo[sl] = np.maximum(lo[sl], val)
+            else:
+                hi[sl] = np.minimum(hi[sl], val)
+        if vt == 'I':
+            lo, hi = np.ceil(lo - 1e-9), np.floor(hi + 1e-9)
+        if case['obj'] == 'sumsqr':
+            xr = np.clip(0.0, lo, hi)
+            return lo, hi, float((xr ** 2).sum())
+        to_low = (case['obj'] == 'lin-to') == (side == 'L')
+        return lo, hi, float(cvec @ (lo if to_low else hi))
+
+    active = list(first)
+    nsolve = 0
+    stages = [None] + [[b] for b in later]
+    tight_active = False
+    for extra in stages:
+        if extra is not None:
+            try:
+                for b in extra:
+                    m.st(make(b))
+                    active.append(b)
+                    nops += 1
+            except Exception as ex:  # noqa
+                return {'status': 'unsupported', 'outcome': 'bnd:raise@st-after-solve:%s' % type(ex).__name__, 'ops': nops,
+                        'detail': '%s %s' % (sig, str(ex)[:160])}
+        nsolve += 1
+        st, info = S.solve(_R, m, solver)
+        nops += 1
+        if st == 'raise':
+            return {'status': 'unsupported', 'outcome': 'bnd:raise@solve:%s' % info.split(':')[0], 'ops': nops,
+                    'detail': '%s %s' % (sig, info)}
+        if st != 'optimal':
+            return {'status': 'vacuous', 'outcome': 'bnd:not-optimal:%s' % solver, 'ops': nops, 'detail': '%s %s' % (sig, info)}
+        xv = np.asarray(x.get(), dtype=float).reshape(n)
+        objv = float(m.get())
+        nops += 2
+        lo, hi, ref = reference(active)
+        tol = CTOL[solver] * 6.0
+        # every Bounds object the user handed to st() so far, one by one
+        for j, (idx, val) in enumerate(active if not optimum_only else ()):
+            _, sl = _bnd_index(np.arange(n), idx)
+            r = (val - xv[sl]) if side == 'L' else (xv[sl] - val)
+            if np.max(r) > tol:
+                return {'status': 'violation', 'ops': nops, 'sig': '%s|solve#%d|bound-violated' % (sig, nsolve),
+                        'detail': 'bound #%d (x%s %s %s) violated by %.6g at x=%s (%s)' %
+                                  (j, idx, '>=' if side == 'L' else '<=', np.round(val, 6).tolist(), float(np.max(r)),
+                                   xv.tolist(), solver)}
+        if not optimum_only and (np.max(np.maximum(lo - xv, xv - hi)) > tol or np.max(np.abs(xv)) > 5.0 + tol):
+            return {'status': 'violation', 'ops': nops, 'sig': '%s|solve#%d|box-violated' % (sig, nsolve),
+                    'detail': 'x=%s outside the intersection [%s, %s] (%s)' % (xv.tolist(), lo.tolist(), hi.tolist(), solver)}
+        if not optimum_only and vt == 'I' and np.max(np.abs(xv - np.round(xv))) > ITOL[solver]:
+            return {'status': 'violation', 'ops': nops, 'sig': '%s|solve#%d|vtype-violated' % (sig, nsolve),
+                    'detail': 'x=%s not integer (%s)' % (xv.tolist(), solver)}
+        ov = float((xv ** 2).sum()) if case['obj'] == 'sumsqr' else float(cvec @ xv)
+        otol = OTOL[solver] * (1.0 + abs(ref))
+        if not optimum_only and abs(ov - objv) > otol:
+            return {'status': 'violation', 'ops': nops, 'sig': '%s|solve#%d|objective-value' % (sig, nsolve),
+                    'detail': 'model.get()=%.9g, objective at x.get() %.9g (%s)' % (objv, ov, solver)}
+        if abs(objv - ref) > otol * 5:
+            return {'status': 'violation', 'ops': nops, 'sig': '%s|solve#%d|optimum' % (sig, nsolve),
+                    'detail': 'reported %.9g, closed form with the intersection of all bounds %.9g (lo=%s hi=%s, x=%s, %s)' %
+                              (objv, ref, lo.tolist(), hi.tolist(), xv.tolist(), solver)}
+        # non-trivial: an entry sits on a bound value that only the TIGHTER of two overlapping bounds explains
+        edge = lo if side == 'L' else hi
+        if np.any(np.abs(xv - edge) <= 1e-4) and case['obj'] != 'lin-away':
+            tight_active = True
+    return {'status': 'pass', 'ops': nops, 'nontrivial': bool(tight_active), 'states': nsolve,
+            'outcome': 'bnd:ok:%s' % ('tight-bound-active' if tight_active else 'bounds-inactive')}
+
+
 def run_case(case):
+    if case.get('sub') == 'bnd':
+        return run_bounds(case)
     if case.get('hist'):
         return run_hist(case)
     spec, solver, tag = case['spec'], case['solver'], case['tag']
